@@ -12,7 +12,9 @@
 //       bool apply(World &, size_t op, VB::Fail &);   // run op on real object + model, check the op's own
 //                                                // results and the cheap per-step invariant; return false
 //                                                // if the op is disabled in this state (precondition)
-//       void canon(const World &, std::string &out);  // canonical serialisation of the COMPLETE state
+//       void canon(const World &, std::string &out);  // canonical serialisation of the COMPLETE state: the real
+//                                                // object AND the reference model (otherwise a diverged
+//                                                // pair could hide behind an already-seen real state)
 //       void observe(World &, VB::Fail &);       // full battery of queries vs the model; may perturb the
 //                                                // object (it is discarded afterwards) unless
 //                                                // observersAreConst, in which case canon is re-checked
